@@ -133,6 +133,12 @@ func BuildTagFilter(criteria *modelv1.Criteria, entityDict map[string]int, schem
 			if hasGlobalIndex {
 				return nil, errors.WithMessage(errUnsupportedLogicalOperation, "global index doesn't support OR")
 			}
+			// DummyFilter stands for a condition that is enforced elsewhere (entity, skipped tag) and
+			// matches everything here. "true OR x" is true: dropping the operand would evaluate the
+			// node as "x" alone and discard the rows that only satisfy the dummy side.
+			if left == DummyFilter || right == DummyFilter {
+				return DummyFilter, nil
+			}
 			or := newOrLogicalNode(2)
 			or.append(left).append(right)
 			return or, nil
